@@ -32,6 +32,8 @@ type RunCfg struct {
 	Auto      bool              `json:"auto,omitempty"` // real scheduling / quota / inspect loops instead of manual cycles
 	Extra     map[string]string `json:"extra,omitempty"`
 	Race      bool              `json:"race,omitempty"`
+	Freeze    bool              `json:"freeze,omitempty"`     // record crash points (frozen shim knowledge) for C12
+	Restore   *FrozenState      `json:"restore,omitempty"`    // start as the core after a crash: replay this shim knowledge first
 	ExpectSig string            `json:"expect_sig,omitempty"` // replay: the violation this file reproduces
 	SchedSig  string            `json:"sched_sig,omitempty"`  // replay: schedule signature the recorded run had
 }
@@ -79,6 +81,11 @@ type Sim struct {
 	groupLeak     map[string]Res
 	mrng          *Rng
 	sideOps       []Op
+	frozen        [][]byte
+	freezeSeen    int
+	zrng          *Rng
+	recovering    bool
+	recSteps      int
 	lastMalformed malformedCase
 	lastReload    reloadResult
 }
@@ -270,6 +277,12 @@ func (s *Sim) exec(op Op) {
 				Gang: a.GangStyle != "", GangStyle: a.GangStyle, TimeoutMs: a.TimeoutMs, TaskGroups: map[string]int{}, UgiNil: a.NilUgi, SubmitAtMs: sh.nowMs()}
 			for _, tg := range a.TaskGroups {
 				m.TaskGroups[tg.Name] = tg.Count
+				for i := 0; i < tg.Count; i++ {
+					m.PhAsk = m.PhAsk.Add(tg.Res)
+				}
+			}
+			if a.PhAsk != nil {
+				m.PhAsk = a.PhAsk.Clone()
 			}
 			m.Forced = a.Tags["application.create.force"] == "true"
 			sh.Apps[a.ID] = m
@@ -465,6 +478,11 @@ func (s *Sim) quiescent(op Op) {
 	s.shim.mu.Unlock()
 	s.pre = s.post
 	s.post = TakeSnap(s.sc.Scheduler, s.part)
+	if s.cfg.Freeze {
+		s.shim.mu.Lock()
+		s.freeze("step")
+		s.shim.mu.Unlock()
+	}
 	nv := len(s.violations)
 	s.runOracles(op, evs, preds)
 	s.noteState()
